@@ -107,6 +107,7 @@ func runCheck(repo, verif, prop, tier string, keep bool, only string, verbose bo
 	if err := eng.loadPrelude(filepath.Join(verif, "specs", "prelude.smt2")); err != nil {
 		return fail(err.Error())
 	}
+	eng.loadXlang()
 	if err := eng.readAllContracts(); err != nil {
 		return fail("contract-stale: " + err.Error())
 	}
@@ -204,7 +205,16 @@ func runCheck(repo, verif, prop, tier string, keep bool, only string, verbose bo
 			return
 		}
 		o.Script = o.unit.script(o)
-		o.Result = solveScript(tmp, fmt.Sprintf("o%04d", i), o.Script, timeout, nil)
+		to := timeout
+		if o.ExpectSat {
+			// cover queries over quantified facts rarely come back "sat"; what they guard
+			// against is "unsat" (contradictory assumptions), which is found quickly
+			to = 3
+			if tier == "thorough" {
+				to = 15
+			}
+		}
+		o.Result = solveScript(tmp, fmt.Sprintf("o%04d_%s", i, trunc2(sanitize(o.Name), 80)), o.Script, to, nil)
 	})
 	// classify
 	known := readKnownFindings(filepath.Join(verif, "known-findings.txt"))
@@ -349,7 +359,7 @@ func writeReplay(eng *Engine, o *Obligation, prop, path, tmp string) string {
 		"solver_output": trunc2(o.Result.Output, 4000),
 	}
 	suffix := " no-failing-input-found"
-	if o.Result.Status == "sat" {
+	if o.Result.Status == "sat" || o.Result.Status == "unknown" {
 		if ok, info := tryReplay(eng, o, tmp); info != nil {
 			rec["replay"] = info
 			if ok {
